@@ -606,6 +606,9 @@ def case_class_suffix(case):
     def reserved(x):
         # a data column named like one of the bookkeeping columns the grouping code adds to its working frame
         if isinstance(x, dict):
+            # (also: a GeoJSON property key named "geometry", the name under which the frame keeps the features' geometries)
+            if isinstance(x.get("properties"), dict) and "geometry" in x["properties"]:
+                return True
             return x.get("name") in RESERVED_COLUMN_NAMES or any(reserved(v) for v in x.values())
         if isinstance(x, (list, tuple)):
             return any(reserved(v) for v in x)
